@@ -195,6 +195,9 @@ pub struct Layout {
     pub fields: Vec<Field>,
     pub enums: Vec<EnumDecl>,
     pub inners: Vec<Layout>,
+    /// `#[bitfield(uN, debug, default = x)]` instead of `#[bitfield(uN, default = x, debug)]`
+    #[serde(default)]
+    pub debug_first: bool,
 }
 
 pub fn is_native_width(bits: u32) -> bool {
